@@ -245,6 +245,8 @@ class CallMixin:
                         if k is not None:
                             from .engine import wf
                             p.objs[mm[1]][mm[2]] = self.make_value(k, '%s@call%d' % (mm[2], line), p); p.assume(wf(p.objs[mm[1]][mm[2]]))
+                            if not hasattr(self, 'maybe_absent'): self.maybe_absent = set()
+                            self.maybe_absent.add((mm[1], mm[2]))
             q.heap = dict(p.heap); q.has = dict(p.has); q.objs = p.objs; q.ghost = p.ghost
             # the callee's recorded ghost histories are existentially quantified for the caller: fresh arrays per call
             saved_rk = self.rec_kinds
